@@ -206,6 +206,7 @@ class Broken(Exception):
 
 
 SIGS = {}
+ALPHA = {}          # lean name -> parameter types + hash of the body with positional parameter names
 SIGNATURES = {}     # lean name -> parameter list + result type of the generated definition
 
 
@@ -1148,6 +1149,79 @@ def select0(fn, sel):
     raise Broken(f"selector {sel}")
 
 
+
+def _ast_hash(n):
+    """structure hash of an AST subtree without ids / source positions (fallback when a member of a selector
+    family cannot be translated)"""
+    def strip(x):
+        if isinstance(x, dict):
+            return {k: strip(v) for k, v in x.items() if k not in ("id", "loc", "range", "previousDecl", "parentDeclContextId")}
+        if isinstance(x, list):
+            return [strip(v) for v in x]
+        return x
+    return "?" + hashlib.md5(json.dumps(strip(n), sort_keys=True).encode()).hexdigest()[:12]
+
+
+def selector_family(sel):
+    """(prefix, index, suffix): the selector is prefix + str(index) + suffix and its family is the same text
+    with other indices: `if:3/lhs` -> ("if:", 3, "/lhs"); `assign:x#1` -> ("assign:x#", 1, "");
+    `callarg:f#2.0` -> ("callarg:f#", 2, ".0"); `var:x` -> ("var:x#", 0, "").  None for `function`."""
+    base, sep, path = sel.partition("/")
+    suffix = sep + path
+    kind, _, arg = base.partition(":")
+    if kind in ("if", "while", "return", "switch", "for", "ptroff", "index", "deref", "ptroffpm"):
+        return (kind + ":", int(arg or 0), suffix)
+    if kind in ("var", "assign"):
+        name, _, nth = arg.partition("#")
+        return (f"{kind}:{name}#", int(nth or 0), suffix)
+    if kind == "callarg":
+        callee, _, rest = arg.partition("#"); nth, _, argi = rest.partition(".")
+        return (f"callarg:{callee}#", int(nth or 0), "." + (argi or "0") + suffix)
+    return None
+
+
+def family_sequence(site, consts, sizes, key):
+    """alpha-normal forms of ALL members of the site's selector family, in source order"""
+    fam = selector_family(site.get("select", "function"))
+    if fam is None:
+        return None
+    pre, _idx, suf = fam
+    seq = []
+    for j in range(0, 48):
+        sel = f"{pre}{j}{suf}"
+        try:
+            translate_site(dict(site, select=sel, lean="__cand__"), consts, sizes, key)
+            seq.append(ALPHA.get("__cand__", "?"))
+        except Exception:
+            # not translatable, or no j-th member: the AST node decides
+            try:
+                fn = find_function(clang_docs(site["filter"], key), site)
+                seq.append(_ast_hash(select(fn, sel)))
+            except Exception:
+                try:
+                    seq.append(_ast_hash(select0(fn, sel.partition("/")[0])))
+                except Exception:
+                    break
+    for d in (ALPHA, SIGNATURES, SIGS):
+        d.pop("__cand__", None)
+    return seq
+
+
+def embed_index(old, new, idx):
+    """old is a subsequence of new (members were only inserted) -> position of old[idx] in new under the
+    leftmost embedding; None otherwise"""
+    j = 0; pos = None
+    for i, x in enumerate(old):
+        while j < len(new) and new[j] != x:
+            j += 1
+        if j >= len(new):
+            return None
+        if i == idx:
+            pos = j
+        j += 1
+    return pos
+
+
 def translate_site(site, consts, sizes, key):
     docs = clang_docs(site["filter"], key)
     fn = find_function(docs, site)
@@ -1213,6 +1287,12 @@ def translate_site(site, consts, sizes, key):
         SIGS[site["lean"]] = {"order": order, "ptrs": ptrs, "allp": allp}
     sig = " ".join(f"({n} : {t})" for n, t in allp)
     SIGNATURES[site["lean"]] = sig + " : " + rty
+    # alpha-normal form: parameter names replaced by their position.  Two versions of a site with the same
+    # normal form are the same function of their arguments (a pure renaming of C++ locals/parameters).
+    nb = body
+    for i, (n, _t) in enumerate(allp):
+        nb = re.sub(r"(?<![\w.'])" + re.escape(n) + r"(?![\w'])", f"«p{i}»", nb)
+    ALPHA[site["lean"]] = " ".join(t for _n, t in allp) + " : " + rty + " := " + hashlib.md5(nb.encode()).hexdigest()[:16]
     src = f"{fn.get('loc', {}).get('line', fn.get('range', {}).get('begin', {}).get('line', '?'))}"
     txt = (f"/-- from `{site['filter']}` {site.get('targs', site.get('record', ''))} "
            f"`{site['name']}`{''.join(' <' + t + '>' for t in site.get('fn_targs', []))} [{site.get('select', 'function')}] -/\n"
@@ -1242,10 +1322,25 @@ def main():
         if s.get("select", "function") == "function" and s.get("file") == "Funcs" and "record" not in s \
            and s["name"] != "operator()":
             CALLABLE[s["name"]] = s["lean"]
+    lock_path = os.path.join(HERE, "signatures.lock.json")
+    relock = "--relock" in sys.argv or not os.path.exists(lock_path)
+    lock = {} if relock else json.load(open(lock_path))
+    relocated = {}
     for s in sites:
         try:
             txt = translate_site(s, consts, sizes, key)
             status[s["lean"]] = "ok"
+            lk = lock.get(s["lean"])
+            if lk and lk.get("seq") and lk.get("alpha") != ALPHA.get(s["lean"]):
+                # The expression at the locked position differs.  If the function only GAINED members of this
+                # selector family (e.g. a guard inserted earlier shifts `if:N`), follow the expression to its new
+                # position; otherwise the expression itself changed and the proofs decide.
+                fam = selector_family(s.get("select", "function"))
+                new_seq = family_sequence(s, consts, sizes, key)
+                j = embed_index(lk["seq"], new_seq or [], fam[1]) if fam and new_seq is not None else None
+                if j is not None and j != fam[1] and len(new_seq) > len(lk["seq"]):
+                    txt = translate_site(dict(s, select=f"{fam[0]}{j}{fam[2]}"), consts, sizes, key)
+                    relocated[s["lean"]] = f"{s.get('select')} -> {fam[0]}{j}{fam[2]}"
         except Broken as e:
             status[s["lean"]] = f"translation-broken: {e}"
             txt = f"-- translation-broken {s['lean']}: {e}\n"
@@ -1263,15 +1358,27 @@ def main():
     # Models call generated definitions positionally; a change of the *parameter order* (e.g. `a - b`
     # rewritten to `b - a` swaps the order of first appearance) would silently re-bind the arguments.
     # The committed lock file pins every signature; a deviation is reported like a broken site.
-    lock_path = os.path.join(HERE, "signatures.lock.json")
-    if "--relock" in sys.argv or not os.path.exists(lock_path):
-        json.dump(SIGNATURES, open(lock_path, "w"), indent=0, sort_keys=True)
+    if relock:
+        seqs = {}
+        for st in sites:
+            if status.get(st["lean"]) == "ok":
+                try:
+                    seqs[st["lean"]] = family_sequence(st, consts, sizes, key)
+                except Exception:
+                    seqs[st["lean"]] = None
+        cur_lock = {k: {"sig": v, "alpha": ALPHA.get(k, ""), "seq": seqs.get(k)} for k, v in SIGNATURES.items()}
+        json.dump(cur_lock, open(lock_path, "w"), indent=0, sort_keys=True)
     else:
-        lock = json.load(open(lock_path))
         for k, v in SIGNATURES.items():
-            if k in lock and lock[k] != v and status.get(k) == "ok":
-                status[k] = f"signature-changed: was `{lock[k]}` now `{v}`"
-    json.dump({"repo_hash": key, "sites": status}, open(os.path.join(BUILD, "gen_status.json"), "w"), indent=1)
+            if k in lock and status.get(k) == "ok" and lock[k]["sig"] != v:
+                # same types and same body up to the names of the parameters: a renaming in the C++ source
+                if lock[k]["alpha"] == ALPHA.get(k, ""):
+                    continue
+                status[k] = f"signature-changed: was `{lock[k]['sig']}` now `{v}`"
+    json.dump({"repo_hash": key, "sites": status, "relocated": relocated},
+              open(os.path.join(BUILD, "gen_status.json"), "w"), indent=1)
+    for k, v in relocated.items():
+        print(f"{k}: relocated {v} (members were inserted before it; expression unchanged)")
     broken = {k: v for k, v in status.items() if v != "ok"}
     for k, v in broken.items():
         print(f"{k}: {v}")
